@@ -30,6 +30,33 @@ def _work(job):
         return {"ok": False, "error": traceback.format_exc()}
 
 
+def _work_layout(job):
+    _quiet()
+    from . import layoutcases
+    try:
+        recs, refused = [], set()
+        for t in job["trees"]:
+            r, rf = layoutcases.run_layout(t, job["frontend"], job["prefix"])
+            recs.extend(r)
+            refused.update(rf)
+        return {"ok": True, "recs": recs, "refused": sorted(refused)}
+    except Exception:
+        return {"ok": False, "error": traceback.format_exc()}
+
+
+def enumerate_layouts():
+    work = tempfile.mkdtemp(prefix="lay-", dir=tlc.SCRATCH_ROOT)
+    try:
+        rf = os.path.join(work, "cases.json")
+        res = tlc.run_tlc("LayoutCases", cfg_text=open(os.path.join(tlc.SPEC_DIR, "LayoutCases.cfg")).read(),
+                          env={"RESULT_FILE": rf}, workers=1, timeout=600)
+        if not tlc.ok(res) or not os.path.exists(rf):
+            common.machinery_failure("LayoutCases failed:\n" + res["out"][-3000:])
+        return json.load(open(rf))["cases"]
+    finally:
+        shutil.rmtree(work, ignore_errors=True)
+
+
 def enumerate_cases(maxlen, full):
     work = tempfile.mkdtemp(prefix="hr-", dir=tlc.SCRATCH_ROOT)
     try:
@@ -63,16 +90,52 @@ def run(prop, tier, seed, replay=None):
             if quick and (pi + ci) % 3 != 0 and p != "/":
                 continue
             jobs.append({"cases": part, "frontend": f, "prefix": p})
+    # collection layouts (Layout.tla): every layout under every front end; quick rotates the prefixes
+    layouts = enumerate_layouts()
+    ljobs = []
+    for ci, (f, p) in enumerate(configs):
+        mine = [t for k, t in enumerate(layouts) if not quick or (k + ci) % 3 == 0 or p == "/"]
+        for i in range(0, len(mine), 8):
+            ljobs.append({"trees": mine[i:i + 8], "frontend": f, "prefix": p})
+    if replay and json.load(open(replay)).get("layout"):
+        r = json.load(open(replay))["layout"]
+        jobs = []
+        ljobs = [{"trees": [r["tree_full"]], "frontend": r["frontend"],
+                  "prefix": "/" if r["prefix"] == "root" else "/" + r["prefix"] + "/"}]
     with multiprocessing.get_context("fork").Pool(15) as pool:
         outs = pool.map(_work, jobs, chunksize=1)
+        louts = pool.map(_work_layout, ljobs, chunksize=1)
+    lrecs, lrefused = [], set()
+    for o in louts:
+        if not o["ok"]:
+            common.machinery_failure("harness exception:\n" + o["error"])
+        lrecs.extend(o["recs"])
+        lrefused.update(o["refused"])
+    if lrecs:
+        lres, lstat = tlc.validate_traces("LayoutTrace", "LayoutTrace.cfg", {"recs": lrecs},
+                                          constants={"EnabledDevs": tlc.tla_set(devs)}, timeout=3000)
+        for v in sorted(lres, key=lambda v: (v["dev"], v["i"])):
+            rec = lrecs[v["i"] - 1]
+            if v["k"] == "known":
+                rep.known_finding(v["dev"], devs.get(v["dev"], {}).get("what", v["dev"]))
+            else:
+                rep.violation("%s PROPFIND Depth %d at node %s listed %s ; layout=%s (%s, prefix %s)" % (
+                    v["dev"], rec["depth"], rec["at"], rec["got"],
+                    [(n["id"], n["parent"], n["kind"]) for n in rec["tree"]], rec["frontend"], rec["prefix"]),
+                    {"property": prop, "verdict": v, "layout": dict(rec, tree_full=rec["tree"])})
+        rep.coverage["layouts"] = {"layouts": len(layouts), "listings_judged": len(lrecs), "states": lstat["distinct"],
+                                   "creations_refused_by_the_server": sorted(lrefused)}
     names, cfgs = [], []
     for o in outs:
         if not o["ok"]:
             common.machinery_failure("harness exception:\n" + o["error"])
         names.extend(o["names"])
         cfgs.append(o["cfg"])
-    results, stat = tlc.validate_traces("HrefTrace", "HrefTrace.cfg", {"names": names, "cfgs": cfgs},
-                                        constants={"EnabledDevs": tlc.tla_set(devs)}, timeout=3000)
+    if names or cfgs:
+        results, stat = tlc.validate_traces("HrefTrace", "HrefTrace.cfg", {"names": names, "cfgs": cfgs},
+                                            constants={"EnabledDevs": tlc.tla_set(devs)}, timeout=3000)
+    else:
+        results, stat = [], {"distinct": 0}
     from . import hrefcases
     for v in sorted(results, key=lambda v: (v["dev"], v["i"])):
         rec = (names if v["t"] == "n" else cfgs)[v["i"] - 1]
@@ -93,7 +156,11 @@ def run(prop, tier, seed, replay=None):
                 "(name, emitting context) round trip: the href as emitted is requested verbatim and must return "
                 "the resource it was emitted for; contexts: PROPFIND Depth 1 and 0, sync-collection, "
                 "calendar-query, multiget, POST Location, PROPPATCH / 404 response hrefs; 3 route prefixes x 2 "
-                "front ends; non-trivial = the name contains a reserved or non-ASCII character"
+                "front ends; non-trivial = the name contains a reserved or non-ASCII character; "
+                "layouts = the 60 collection trees of Layout.tla (a calendar / addressbook / plain collection holding "
+                "any subset of {file, plain sub-collection, calendar sub-collection}, the sub-collection holding any "
+                "subset of {file, collection}; names with '#', ' ', '%%20', '+'), PROPFIND Depth 0 and 1 at every "
+                "collection of the tree, every listed href dereferenced as sent and identified by display name / UID"
                 % ("" if not quick else " (quick: the longest names restricted to escape-like and mixed-class ones)"),
         "samples": names[:3] + cfgs[:1],
         "names": len(cases), "configurations": len(jobs),
